@@ -4,9 +4,12 @@ import os
 import time
 
 import monitors as M
+import props_c08
 import props_c10
 import props_c11
 import props_c13
+import props_c17
+import props_c20
 import props_c12
 import props_c18
 import vcheck
@@ -225,6 +228,9 @@ PROPS["C12"] = props_c12.SPEC
 PROPS["C10"] = props_c10.SPEC_C10
 PROPS["C16"] = props_c10.SPEC_C16
 PROPS["C13"] = props_c13.SPEC
+PROPS["C08"] = props_c08.SPEC
+PROPS["C17"] = props_c17.SPEC
+PROPS["C20"] = props_c20.SPEC
 
 
 def setup():
@@ -343,6 +349,16 @@ def run_check(pid, tier, seed):
     for st in spec.get("streams", []):
         dargs = st["driver"](facts) if st.get("driver") else None
         binary = instr if st.get("instrumented") else harness
+        if st.get("race"):
+            # race-detector build; an optional overlay (pure delays after statically predicted unlocked accesses)
+            ov = st["overlay"](facts) if st.get("overlay") else None
+            if st.get("overlay") and ov is None:
+                continue
+            binary, err = vcheck.build_harness(race=True, extra_overlay=ov, name="vharness-race" + ("-" + st["name"] if ov else ""))
+            if binary is None:
+                chk.violation(pid + ":harness-does-not-build", "the race-detector build of the harness fails",
+                              {"kind": "obligation-failed", "theorems": ["harness build"], "detail": err[-1500:]})
+                continue
         pairs, herr, crashes = vcheck.run_stream(binary, st["harness"](tier, seed), dargs)
         if herr:
             chk.notes.append("%s: %s" % (st["name"], herr[:500]))
